@@ -236,7 +236,9 @@ CHECKS["C13"] = dict(
           "volume integral). Decided on the real tools for all three physics, planar and "
           "axisymmetric: additivity over random subsets and orders (1e-15), block area / volume vs the drawn regions and "
           "revolved volumes (1e-15), contour length vs drawn length, electrostatic energy vs half sum V*q (1e-12), "
-          "magnetostatic energy vs half int A.J and coenergy."),
+          "magnetostatic energy vs half int A.J and coenergy (linear laminated materials included); resistive / lamination / total losses "
+          "and time-harmonic magnetics problems (complex integrals) are part of the additivity check; every requested integral must "
+          "come back as a number."),
     design_ref="DESIGN.md section 3, C13",
     technique="Lean 4 proof (fold additivity, toggle laws, energy identities by the symmetric bilinear form) + selection-sequence correspondence + identities checked on the real post-processors",
 )
@@ -250,7 +252,7 @@ CHECKS["C12"] = dict(
           "point is never rejected by both neighbours in any totally ordered arithmetic (no gaps on edges); the interpolant "
           "returns the nodal value at nodes, reproduces affine fields exactly and is single-valued on a shared edge "
           "(continuity). Tied to the code by running Model/Locate.lean's interp at Float against the values the real "
-          "post-processors return. Decided on the real tools (electrostatics, heat, planar magnetics, smoothing off) by an "
+          "post-processors return. Decided on the real tools (electrostatics, heat, planar magnetics static and time-harmonic - complex potentials, both parts - smoothing off) by an "
           "exact rational oracle on the solution-file mesh: found <=> the point is in the closed meshed region; value = exact "
           "barycentric interpolant; field = gradient / curl of it; flux density = field scaled by the block's material (D = eps E with "
           "energy density D.E/2, F = k G, H = B/(mu mu0) with B.H/2 and the laminated permeability); material data = those of the block; over all ordered "
